@@ -6,6 +6,7 @@ S = frozenset
 POOL2 = ("e", "j")
 POOL3 = ("e", "j", "t")
 POOL_ARG = ("arg_0", "arg_1")  # the simplifier's own fresh-name shape (an already simplified query)
+POOL_ARG3 = ("arg_0", "arg_1", "arg_2")
 
 SLICES = {
     # name: (grammar kwargs, predicate on (type, term), description)
@@ -38,6 +39,10 @@ SLICES = {
     "apply2": (dict(prods=S("attr op app2 appkw bin".split()), seq_attrs=("jets",), int_attrs=("a", "pt")),
                lambda q: T.has(q[1], {"app2"}),
                "called two-parameter lambdas (positional, mixed and keyword arguments) over operators"),
+    "apply0": (dict(prods=S("attr op app0 tup const".split()), seq_attrs=("jets",), int_attrs=(), max_pkg=2,
+                    ops=("Select", "Where")),
+               lambda q: T.has(q[1], {"app0"}) and T.count_tag(q[1], "op") >= 2,
+               "called parameterless lambdas inside fusable stages"),
     "apply": (dict(prods=S("attr op app appkw first meth bin".split())),
               lambda q: T.has(q[1], {"app", "first"}),
               "called lambdas and First push-through with method calls"),
